@@ -351,6 +351,70 @@ func genCtxLookup(r *vlib.Rand, n int) *gtab.LookupTable {
 	return l
 }
 
+// genChainLookup makes a GSUB6 lookup in the parser's normal form
+func genChainLookup(r *vlib.Rand, n int) *gtab.LookupTable {
+	l := &gtab.LookupTable{Meta: &gtab.LookupMetaInfo{LookupType: 6, LookupFlags: vlib.Pick(r, flagSets)}}
+	sets := func(lo, hi int) []coverage.Set {
+		var out []coverage.Set
+		for j := r.Range(lo, hi); j > 0; j-- {
+			var set []glyph.ID
+			if !r.Chance(1, 8) {
+				set = subset(r, n, 0, r.Bool())
+			}
+			out = append(out, setOf(set))
+		}
+		return out
+	}
+	for k := r.Range(1, 3); k > 0; k-- {
+		switch r.Intn(3) {
+		case 0:
+			cov := subset(r, n, 0, r.Bool())
+			st := &gtab.ChainedSeqContext1{Cov: covFromList(cov)}
+			for range cov {
+				var rules []*gtab.ChainedSeqRule
+				for j := r.Range(1, 3); j > 0; j-- {
+					rules = append(rules, &gtab.ChainedSeqRule{Backtrack: randGids(r, n, 0, 3), Input: randGids(r, n, 0, 3),
+						Lookahead: randGids(r, n, 0, 3), Actions: genActs(r)})
+				}
+				st.Rules = append(st.Rules, rules)
+			}
+			l.Subtables = append(l.Subtables, st)
+		case 1:
+			var cov []glyph.ID
+			if !r.Chance(1, 8) {
+				cov = subset(r, n, 0, r.Bool())
+			}
+			bc := genClasses(r, n, r.Range(0, 2))
+			ic := genClasses(r, n, r.Range(0, 3))
+			lc := genClasses(r, n, r.Range(0, 2))
+			st := &gtab.ChainedSeqContext2{Cov: covFromList(cov), Backtrack: classTable(bc), Input: classTable(ic), Lookahead: classTable(lc)}
+			st.Rules = make([][]*gtab.ChainedClassSeqRule, len(ic)+1)
+			cl := func(k, lo, hi int) []uint16 {
+				out := make([]uint16, r.Range(lo, hi))
+				for x := range out {
+					out[x] = uint16(r.Intn(k + 1))
+				}
+				return out
+			}
+			total := 0
+			for total == 0 {
+				for c := range st.Rules {
+					st.Rules[c] = nil
+					for j := r.Range(0, 2); j > 0; j-- {
+						st.Rules[c] = append(st.Rules[c], &gtab.ChainedClassSeqRule{Backtrack: cl(len(bc), 0, 2), Input: cl(len(ic), 0, 2),
+							Lookahead: cl(len(lc), 0, 2), Actions: genActs(r)})
+						total++
+					}
+				}
+			}
+			l.Subtables = append(l.Subtables, st)
+		case 2:
+			l.Subtables = append(l.Subtables, &gtab.ChainedSeqContext3{Backtrack: sets(0, 2), Input: sets(1, 3), Lookahead: sets(0, 2), Actions: genActs(r)})
+		}
+	}
+	return l
+}
+
 func genGpos1Lookup(r *vlib.Rand, n int) *gtab.LookupTable {
 	l := &gtab.LookupTable{Meta: &gtab.LookupMetaInfo{LookupType: 1, LookupFlags: vlib.Pick(r, flagSets)}}
 	k := r.Range(1, 3)
@@ -923,7 +987,7 @@ func (g *textGen) lookup(ty string) {
 }
 
 var allTypes = []string{"GSUB1", "GSUB2", "GSUB3", "GSUB4", "GSUB5", "GSUB6", "GPOS1", "GPOS2", "GPOS3", "GPOS4"}
-var modelTypes = []string{"GSUB1", "GSUB2", "GSUB3", "GSUB4", "GSUB5", "GPOS1"}
+var modelTypes = []string{"GSUB1", "GSUB2", "GSUB3", "GSUB4", "GSUB5", "GSUB6", "GPOS1"}
 
 func genText(r *vlib.Rand, fs *fontSpec, types []string, table string) string {
 	g := &textGen{r: r, fs: fs, valid: !r.Chance(1, 6)}
